@@ -340,4 +340,13 @@ example :
     (List.range 8).map (fun t => pendingAt c (gpioTrace 1 gins) t 0) =
       [false, false, true, true, true, true, false, false] := by decide
 
+/-- Non-vacuity of `clear_is_local`: two runs that differ in the trigger of source 0 and in bit 0 of every written
+    mask agree on everything that concerns source 1. -/
+example :
+    let c : Cfg := { kinds := [.pulse, .rising], bw := 8, little := false }
+    AgreeTraces c 1 [idle [true, true], wr 1 0b11, wr 2 0b10, idle [false, true]]
+                    [idle [false, true], wr 1 0b10, wr 2 0b11, idle [true, true]] := by
+  simp [AgreeTraces, AgreeOn, In.trigOf, wr, idle]
+  decide
+
 end Litex.C15
